@@ -165,11 +165,18 @@ func GenRefGraph(t *rapid.T, label string) *GraphCase {
 				// next to the terminating member (@ka = @ka | @k)
 				ka := fmt.Sprintf("@ka%d", keyTypes)
 				al := &ref.SNode{Kind: ref.SRef, Names: []string{kn}}
-				switch rapid.IntRange(0, 2).Draw(t, fmt.Sprint(label, "KSAliasForm", i)) {
+				switch rapid.IntRange(0, 3).Draw(t, fmt.Sprint(label, "KSAliasForm", i)) {
 				case 1:
 					al.Names = []string{ka, kn}
 				case 2:
 					al.Names = []string{kn, ka}
+				case 3:
+					// a diamond: two further aliases of the same string type
+					s1, s2 := ka+"s", ka+"l"
+					g.Types[s1] = &ref.SNode{Kind: ref.SRef, Names: []string{kn}}
+					g.Types[s2] = &ref.SNode{Kind: ref.SRef, Names: []string{kn}}
+					gc.Order = append(gc.Order, s1, s2)
+					al.Names = []string{s1, s2}
 				}
 				g.Types[ka] = al
 				gc.Order = append(gc.Order, ka)
